@@ -286,7 +286,16 @@ class MetaGen:
         self.ops.append({"op": "save_hard_state", "term": 1, "voted_for": 1})
         self.ops.append({"op": "save_member", "members": [1], "addrs": {"1": "127.0.0.1:9848"}})
         for _ in range(n):
+            before = len(self.ops)
             self.step()
+            # the apply stream of a busy node runs next to whatever the store is doing: some operations get a burst of
+            # fire-and-forget last-applied writes (value = what was applied so far) issued while they run
+            if len(self.ops) > before and self.r.random() < 0.2:
+                op = self.ops[-1]
+                if op["op"] in ("save_hard_state", "save_member", "add_addr", "delete_from", "pointer_build", "batch", "append"):
+                    op["apply_storm"] = self.r.choice([4, 12])
+                    op["apply_k"] = self.applied
+                    self.features.add("apply-stream")
         return self.ops
 
 
